@@ -355,7 +355,9 @@ class StmtMixin:
             raise Unsupported("loop #%s at line %d has no invariant in the contract" % (ordinal, node.lineno))
         want = spec.get("iter")
         if want is not None and ast.unparse(node.iter).replace(" ", "") != want.replace(" ", ""):
-            raise Unsupported("loop #%s iterates %r, contract expects %r" % (ordinal, ast.unparse(node.iter), want))
+            # the invariant is keyed by ordinal; a different iterated expression is tried with the same invariant
+            # (if it no longer fits, its obligations fail - never a silent pass)
+            self.dropped.add("loop #%s iterates %r (contract written for %r)" % (ordinal, ast.unparse(node.iter), want))
         st = self.st
         if zipped:
             a, b = self.seq_of(zipped[0]), self.seq_of(zipped[1])
